@@ -256,18 +256,15 @@ def unsubscribe (s : St) (r : Nat) (t : Topic) : St × Res :=
   | none => (s, .invalid)
   | some _ => (unsubscribeCore s r t, .unit)
 
-/-- `close_internal` of a receiver (also the body of `AsyncTopicReceiver::drop`):
-the local set is drained FIRST and then `unsubscribe` is called for every drained topic —
-each of those calls finds the topic absent from the (now empty) local set and returns, so the
-dispatcher lists are not touched. Transliterated literally. -/
+/-- `close_internal` of a receiver: the topics of the local set are CLONED, then `unsubscribe` is
+called for each of them (which removes the topic from the local set and the mailbox from that
+topic's list), then the receiver count is given up. Nothing happens when the dispatcher is gone. -/
 def rxCloseInternal (s : St) (r : Nat) : St :=
   match s.rxs[r]? with
   | none => s
   | some x =>
     if upgradable s x then
-      let drained := x.subs
-      let s1 := { s with rxs := modAt s.rxs r (fun x => { x with subs := [] }) }
-      let s2 := drained.foldl (fun s t => unsubscribeCore s r t) s1
+      let s2 := x.subs.foldl (fun s t => unsubscribeCore s r t) s
       { s2 with rcount := wrapDec s2.rcount }
     else s
 
@@ -280,19 +277,16 @@ def rClose (s : St) (r : Nat) : St × Res :=
       let s1 := { s with rxs := modAt s.rxs r (fun x => { x with closed := true }) }
       (rxCloseInternal s1 r, .ok)
 
-/-- `Drop`. sync: `if !closed.swap(true) { close_internal() }`; async: the close body runs
-whatever the flag says. Afterwards the fields are released: the `Arc<MailboxProducer>` dies
-(its `Drop` marks the mailbox disconnected, nobody can observe that). -/
+/-- `Drop`, both flavours: `if !closed.swap(true) { close_internal() }`. Afterwards the fields are
+released: the `Arc<MailboxProducer>` dies (its `Drop` marks the mailbox disconnected, nobody can
+observe that). -/
 def rDrop (s : St) (r : Nat) : St × Res :=
   match rxLive s r with
   | none => (s, .invalid)
   | some x =>
     let s1 :=
-      match x.kind with
-      | .sync =>
-        if x.closed then s
-        else rxCloseInternal { s with rxs := modAt s.rxs r (fun x => { x with closed := true }) } r
-      | .async => rxCloseInternal s r
+      if x.closed then s
+      else rxCloseInternal { s with rxs := modAt s.rxs r (fun x => { x with closed := true }) } r
     ({ s1 with rxs := modAt s1.rxs r (fun x => { x with live := false, disc := true }) }, .unit)
 
 /-- the receiver built by `Clone` when the dispatcher is reachable -/
